@@ -305,6 +305,7 @@ type RunOpts struct {
 	PollBudget  int
 	CancelAt    int
 	Horizon     int
+	TreeKillFn  string // interpreter: register this function of module main as the host's kill handler
 	Singletons  map[string]value.Value
 	Invocations []runtime.FunctionInvocation // host calls after construction (default: main)
 }
@@ -541,7 +542,16 @@ func runTree(a Analyzed, opts RunOpts) (o Obs) {
 		o.Polls = ctx.Polls
 	}()
 	var cctx context.Context = ctx
-	i := hms.Run(opts.TreeLimit, a.Mods, "main", treeExec{r}, treeScope(), &cctx)
+	scope := treeScope()
+	if opts.TreeKillFn != "" {
+		// the host's kill handler: a function value under the name the interpreter looks for
+		for _, f := range a.Mods["main"].Functions {
+			if f.Ident.Ident() == opts.TreeKillFn {
+				scope["@event_kill"] = *ivalue.NewValueFunction("main", f.Body, nil)
+			}
+		}
+	}
+	i := hms.Run(opts.TreeLimit, a.Mods, "main", treeExec{r}, scope, &cctx)
 	if i == nil {
 		o.Class = "ok"
 		return
